@@ -376,3 +376,34 @@ impl<I: Interner> MayInvalidate<I> {
             .any(|(new, current)| self.aggregate_generic_args(new, current))
     }
 }
+
+/// Verification hooks (add-only; compiled only with `--cfg chalk_verif`): public wrappers around
+/// the private answer-aggregation helpers so that a harness can drive them directly.
+#[cfg(chalk_verif)]
+pub mod verif {
+    use super::*;
+
+    /// `SubstitutionExt::may_invalidate`
+    pub fn may_invalidate<I: Interner>(
+        interner: I,
+        new: &Substitution<I>,
+        current: &Canonical<Substitution<I>>,
+    ) -> bool {
+        new.may_invalidate(interner, current)
+    }
+
+    /// `aggregate::merge_into_guidance`
+    pub fn merge_into_guidance<I: Interner>(
+        interner: I,
+        root_goal: &Canonical<InEnvironment<Goal<I>>>,
+        guidance: Canonical<Substitution<I>>,
+        answer: &Canonical<ConstrainedSubst<I>>,
+    ) -> Canonical<Substitution<I>> {
+        aggregate::verif_merge_into_guidance(interner, root_goal, guidance, answer)
+    }
+
+    /// `aggregate::is_trivial`
+    pub fn is_trivial<I: Interner>(interner: I, subst: &Canonical<Substitution<I>>) -> bool {
+        aggregate::verif_is_trivial(interner, subst)
+    }
+}
